@@ -29,6 +29,7 @@ class Entropy:
 
     def __init__(self, first: int) -> None:
         self.d = first
+        self.forks = 0
         self.log: list = []
         self.phase = "import"
 
@@ -130,6 +131,104 @@ def op_sb2(o: dict) -> dict:
     }
 
 
+BD_TEXT = """
+options {
+    flags = %s;
+    buildNumber = 0x1;
+    productVersion = "1.00.00";
+    componentVersion = "1.00.00";
+    secureBinaryVersion = "2.1";
+}
+sources {
+    myImage = "app.bin";
+}
+section (0) {
+    load myImage > 0x1000;
+}
+"""
+
+
+def op_sb2_config(o: dict) -> dict:
+    """SB2.1 built the way `nxpimage sb21 export` does (BD file -> parse_sb21_config -> load_from_config)."""
+    from spsdk.sbfile.sb2.images import BootImageV21
+
+    ws = os.path.join(WORKDIR, "sb2cfg")
+    os.makedirs(ws, exist_ok=True)
+    bd = os.path.join(ws, "app.bd")
+    if not os.path.exists(bd):
+        with open(bd, "w") as f:
+            f.write(BD_TEXT % "0x8008")
+        with open(os.path.join(ws, "app.bin"), "wb") as f:
+            f.write(bytes(range(256)) * 4)
+        with open(os.path.join(ws, "kek.txt"), "w") as f:
+            f.write("AB" * 32)
+    if o.get("reuse_config"):
+        if "sb2cfg" not in SHARED:
+            SHARED["sb2cfg"] = BootImageV21.parse_sb21_config(bd)
+        cfg = SHARED["sb2cfg"]
+    else:
+        cfg = BootImageV21.parse_sb21_config(bd)
+    kdir = os.path.join(GOLDEN, "keys")
+    cfg["mainCertPrivateKeyFile"] = os.path.join(kdir, "k0_cert0_2048.pem")
+    sb = BootImageV21.load_from_config(
+        config=cfg,
+        key_file_path=os.path.join(ws, "kek.txt"),
+        signing_certificate_file_paths=[os.path.join(kdir, "root_k0_signed_cert0_noca.der.cert")],
+        root_key_certificate_paths=[os.path.join(kdir, f"root_k{i}_signed_cert0_noca.der.cert") for i in range(4)],
+        rkth_out_path=os.path.join(ws, "hash.bin"),
+        search_paths=[ws],
+    )
+    if o.get("export"):
+        sb.export()
+    return {"kind": "sb2", "slots": {"dek": sb.dek.hex(), "mac": sb.mac.hex(), "nonce": bytes(sb.header.nonce).hex()}, "explicit": [], "pair": ["dek", "nonce"]}
+
+
+def op_fork(o: dict) -> dict:
+    """The interpreter forks workers (os.fork, as multiprocessing's fork start method does) and every process builds
+    artifacts. The operating system hands independent entropy to every process; the device models that by giving
+    each forked worker its own draw numbers. Whatever the code drew *before* the fork and kept is shared memory."""
+    import json as _json
+
+    results = []
+    children = []
+    ent = ENT
+    for k, subops in enumerate(o["children"]):
+        r, w = os.pipe()
+        pid = os.fork()
+        if pid == 0:
+            code = 0
+            try:
+                os.close(r)
+                ent.d = ent.d + 1_000_000_000 * (ent.forks * 8 + k + 1)
+                arts = []
+                for j, so in enumerate(subops):
+                    a = OPS[so["op"]](so)
+                    a["op_index"] = f"{o['_index']}.w{k}.{j}"
+                    arts.append(a)
+                with os.fdopen(w, "w") as f:
+                    f.write(_json.dumps(arts))
+            except BaseException:  # pylint: disable=broad-except
+                traceback.print_exc()
+                code = 3
+            finally:
+                os._exit(code)
+        os.close(w)
+        children.append((pid, r))
+    ent.forks += 1
+    for j, so in enumerate(o.get("parent", [])):
+        a = OPS[so["op"]](so)
+        a["op_index"] = f"{o['_index']}.p.{j}"
+        results.append(a)
+    for pid, r in children:
+        with os.fdopen(r) as f:
+            txt = f.read()
+        _, status = os.waitpid(pid, 0)
+        if status != 0 or not txt:
+            raise RuntimeError(f"forked worker failed with status {status}")
+        results += _json.loads(txt)
+    return {"kind": "fork", "many": results}
+
+
 def op_mbi_class(o: dict) -> dict:
     from spsdk.image.mbi.mbi import create_mbi_class
 
@@ -173,12 +272,21 @@ def op_mbi_config(o: dict) -> dict:
 def op_otfad(o: dict) -> dict:
     from spsdk.utils.crypto.otfad import KeyBlob
 
-    kb = KeyBlob(start_addr=0x0800_1000, end_addr=0x0800_13FF)
+    v = o.get("variant", "implicit")
+    kw = {}
+    explicit = []
+    if v in ("explicit_key", "explicit_key_ctr"):
+        kw["key"] = _explicit(o.get("x", 0), 16)
+        explicit.append("key")
+    if v == "explicit_key_ctr":
+        kw["counter_iv"] = _explicit(o.get("x", 0) + 50, 8)
+        explicit.append("ctr_init_vector")
+    kb = KeyBlob(start_addr=0x0800_1000, end_addr=0x0800_13FF, **kw)
     slots = {"key": kb.key.hex(), "ctr_init_vector": kb.ctr_init_vector.hex()}
-    if o.get("export"):
+    if o.get("export") or explicit:
         pd = kb.plain_data()
         slots["zero_fill"] = pd[32:36].hex()
-    return {"kind": "otfad", "slots": slots, "explicit": [], "pair": ["key", "ctr_init_vector"]}
+    return {"kind": "otfad", "slots": slots, "explicit": explicit, "pair": ["key", "ctr_init_vector"]}
 
 
 def op_iee(o: dict) -> dict:
@@ -186,9 +294,21 @@ def op_iee(o: dict) -> dict:
 
     mode = IeeKeyBlobModeAttributes.AesCTRWAddress if o.get("ctr") else IeeKeyBlobModeAttributes.AesXTS
     keyattr = IeeKeyBlobKeyAttributes.CTR128XTS256 if not o.get("big") else IeeKeyBlobKeyAttributes.CTR256XTS512
-    attr = IeeKeyBlobAttribute(IeeKeyBlobLockAttributes.UNLOCK, keyattr, mode)
-    kb = IeeKeyBlob(attr, start_addr=0x3000_1000, end_addr=0x3000_8000)
-    return {"kind": "iee", "slots": {"key1": kb.key1.hex(), "key2": kb.key2.hex()}, "explicit": [], "pair": ["key1", "key2"]}
+    if o.get("shared_attr"):
+        # helper objects a caller may legitimately share between the artifacts it builds
+        akey = ("iee_attr", bool(o.get("ctr")), bool(o.get("big")))
+        if akey not in SHARED:
+            SHARED[akey] = IeeKeyBlobAttribute(IeeKeyBlobLockAttributes.UNLOCK, keyattr, mode)
+        attr = SHARED[akey]
+    else:
+        attr = IeeKeyBlobAttribute(IeeKeyBlobLockAttributes.UNLOCK, keyattr, mode)
+    kw = {}
+    explicit = []
+    if o.get("variant") == "explicit_key1":
+        kw["key1"] = _explicit(o.get("x", 0) + 100, attr.key1_size)
+        explicit.append("key1")
+    kb = IeeKeyBlob(attr, start_addr=0x3000_1000, end_addr=0x3000_8000, **kw)
+    return {"kind": "iee", "slots": {"key1": bytes(kb.key1).hex(), "key2": bytes(kb.key2).hex()}, "explicit": explicit, "pair": ["key1", "key2"]}
 
 
 def op_bee(o: dict) -> dict:
@@ -201,6 +321,16 @@ def op_bee(o: dict) -> dict:
     if v == "kib":
         k = BeeKIB()
         return {"kind": "bee_kib", "slots": {"kib_key": k.kib_key.hex(), "kib_iv": k.kib_iv.hex()}, "explicit": [], "pair": ["kib_key", "kib_iv"]}
+    if v == "kib_explicit_key":
+        k = BeeKIB(kib_key=_explicit(o.get("x", 0) + 200, 16))
+        return {"kind": "bee_kib", "slots": {"kib_key": k.kib_key.hex(), "kib_iv": k.kib_iv.hex()}, "explicit": ["kib_key"], "pair": ["kib_key", "kib_iv"]}
+    if v == "header_explicit_sw_key":
+        h = BeeRegionHeader(sw_key=_explicit(o.get("x", 0) + 300, 16))
+        return {
+            "kind": "bee_header",
+            "slots": {"sw_key": h._sw_key.hex(), "kib_key": h._kib.kib_key.hex(), "kib_iv": h._kib.kib_iv.hex(), "counter": h._prdb.counter[:12].hex()},
+            "explicit": ["sw_key"],
+        }
     h = BeeRegionHeader()
     return {
         "kind": "bee_header",
@@ -235,14 +365,18 @@ def op_hab(o: dict) -> dict:
 
 WORKDIR = tempfile.gettempdir()
 
-OPS = {"sb2": op_sb2, "mbi_class": op_mbi_class, "mbi_config": op_mbi_config, "otfad": op_otfad, "iee": op_iee, "bee": op_bee, "hab": op_hab}
+SHARED: dict = {}
+ENT = None
+
+OPS = {"sb2": op_sb2, "sb2_config": op_sb2_config, "fork": op_fork, "mbi_class": op_mbi_class, "mbi_config": op_mbi_config, "otfad": op_otfad, "iee": op_iee, "bee": op_bee, "hab": op_hab}
 
 
 def run_epoch(spec: dict) -> dict:
     """Runs in the forked child. spec: first_draw, wall_us, imports[], ops[]."""
-    global WORKDIR
+    global WORKDIR, ENT
     WORKDIR = spec["workdir"]
     ent = Entropy(spec["first_draw"])
+    ENT = ent
     install(ent, spec["wall_us"])
     import importlib
     import logging
@@ -265,9 +399,13 @@ def run_epoch(spec: dict) -> dict:
             ent.phase = f"op{k}"
             CLOCK.advance(o.get("dt_us", 0))
             try:
+                o = dict(o, _index=k)
                 art = OPS[o["op"]](o)
-                art["op_index"] = k
-                out["artifacts"].append(art)
+                if "many" in art:
+                    out["artifacts"] += art["many"]
+                else:
+                    art["op_index"] = k
+                    out["artifacts"].append(art)
             except Exception as exc:  # pylint: disable=broad-except
                 out["errors"].append([k, o["op"], f"{type(exc).__name__}: {exc}", traceback.format_exc()[-1500:]])
             ent.phase = "idle"
